@@ -19,3 +19,11 @@ chk('C19','exploration','reflection + source-parse monitor; Go race detector on 
     'Enumerates every registry name (syntax, uniqueness, Produce, dynamic type name, zero value), parses /repo/knx/dpt for every exported DPT_* type with the Datapoint method set and checks reachability, probes unknown names, checks instance independence sequentially and under 16 concurrent goroutines with the race detector (any report is a violation).',
     'Trusted: go/parser view of the package source; race detector sees executed paths only. Exhaustive over names and source types.',
     'DESIGN.md 5/C19')
+chk('C02','exploration','differential round-trip monitor: library codec vs independent byte-level builder; decode-encode-decode stability on mutated encodings',
+    'Draws abstract frames for every (service x cEMI kind) cell with corner-biased field values, encodes them with the real encoder and with an independently written KNXnet/IP + cEMI builder, demands byte equality, then decodes with the real decoder and demands canonical equality of the value, same service and message code, no error and n <= len. Valid encodings with substituted field bytes, reordered DIBs and CRD variations are decoded, re-encoded and decoded again and must be stable. quick 28 cells x 4000 values (+2 mutations each), thorough 28 x 300000.',
+    'Trusted: internal/spec/frames.go (layout transcription), canonical value generation. Sampled, not exhaustive; decode-only parts (UnknownBlocks) excluded as stated in DESIGN.md.',
+    'DESIGN.md 5/C02')
+chk('C11','exploration','reference-layout monitor: independent cEMI L_Data codec, exhaustive sub-spaces, closed-form helpers',
+    'Compares cemi.Pack byte for byte with an independent transcription of the L_Data layout and cemi.Unpack of that layout with the value: exhaustively all 2^16 control-octet pairs x 3 message codes, the full APCI x sequence x numbered x unit-kind product, every payload length 1..254 and info length 0..255, corner address pairs, plus random frames; the helper constructors/accessors are compared with closed forms over 0..255 and the flag constants with the specified bit positions.',
+    'Trusted: internal/spec/frames.go (EncodeCemi/ParseLData). Exhaustive on the listed finite sub-spaces, sampled on their product.',
+    'DESIGN.md 5/C11')
